@@ -36,7 +36,7 @@ class Spec(SeqSpec):
         self.max_variants = 1 if tier == 'quick' else 2
 
     def roots(self):
-        return [('empty', {'pack_size_target': 30}, [])]
+        return [('empty', {'pack_size_target': 10}, [])]   # every object in its own pack
 
     def core_ops(self, root_name):
         ops = []
@@ -90,7 +90,7 @@ def run(tier, report):
         spec2.thresholds = (1, 9500)
         spec2.depth = 3 if tier == 'quick' else 4
         spec2.max_variants = 2
-        spec2.roots = lambda: [('two-loose', {'pack_size_target': 30}, [('on', 0, ('add', 0)), ('on', 0, ('add', 1))])]
+        spec2.roots = lambda: [('two-loose', {'pack_size_target': 10}, [('on', 0, ('add', 0)), ('on', 0, ('add', 1))])]
         sub = Report('C08', tier, LEVEL)
         explore(spec2, sub)
         report.violations += sub.violations
@@ -105,7 +105,7 @@ def replay(case):
     spec = Spec('thorough')
     if case.get('root') == 'two-loose':
         spec.thresholds = (1, 9500)
-        spec.roots = lambda: [('two-loose', {'pack_size_target': 30}, [('on', 0, ('add', 0)), ('on', 0, ('add', 1))])]
+        spec.roots = lambda: [('two-loose', {'pack_size_target': 10}, [('on', 0, ('add', 0)), ('on', 0, ('add', 1))])]
     spec.nhandles = max([o[1] for o in case['history'] if o[0] == 'on'] + [1]) + 1
     if case.get('spec_nhandles'):
         spec.nhandles = case['spec_nhandles']
